@@ -663,6 +663,112 @@ fn strategy() -> impl Strategy<Value = Case> {
     })
 }
 
+// ------------------------------------------------------------- systematic: pairs of legacy length fields
+
+#[derive(Clone, Debug, Serialize, Deserialize)]
+struct FieldPair {
+    a: usize,
+    b: usize,
+    va: u64,
+    vb: u64,
+}
+
+fn legacy_seed() -> &'static (Vec<u8>, Vec<usize>) {
+    static L: OnceLock<(Vec<u8>, Vec<usize>)> = OnceLock::new();
+    L.get_or_init(|| {
+        let spec = WorldSpec { params: Params { m: 6, k: 2, phi: 1.0 }, parties: vec![(7101, 3), (7102, 5)] };
+        let h = honest(&spec, b"legacy fields", u16::MAX).expect("legacy seed world");
+        crate::wire::legacy_u64_fields(&h.view).expect("legacy layout")
+    })
+}
+
+fn field_pair_case(c: &FieldPair) -> Report {
+    let mut rep = Report::new();
+    let (bytes, offs) = legacy_seed();
+    let mut data = bytes.clone();
+    for (f, v) in [(c.a, c.va), (c.b, c.vb)] {
+        let o = offs[f % offs.len()];
+        data[o..o + 8].copy_from_slice(&v.to_be_bytes());
+    }
+    let entry = table().iter().find(|e| e.name == "stm:AggregateSignature").unwrap();
+    let limit = 64usize * data.len() + (16 << 20);
+    alloc_track::start();
+    let res = catch(|| (entry.decode)(&data));
+    let peak = alloc_track::stop();
+    rep.label("legacy-field-pair");
+    rep.nontrivial(format!("pair {} {} {:x} {:x}", c.a, c.b, c.va, c.vb));
+    if peak > limit {
+        rep.violation("alloc:stm:AggregateSignature", format!("single allocation of {peak} bytes for {} input bytes; fields {c:?}", data.len()));
+    }
+    if let Err(p) = res {
+        rep.violation(format!("panic:stm:AggregateSignature:{}", normalise_location(&p)), format!("legacy aggregate with fields {c:?} panicked: {p}; input {}", hex::encode(&data)));
+    }
+    rep
+}
+
+// ------------------------------------------------------------- honest round trips of generated key material
+
+#[derive(Clone, Debug, Serialize, Deserialize)]
+struct HonestKey {
+    seed: u64,
+    msg: Vec<u8>,
+}
+
+fn honest_key_case(c: &HonestKey) -> Report {
+    use ed25519_dalek::{Signer, SigningKey};
+    use mithril_common::crypto_helper::{GenesisEd25519Signature, GenesisEd25519VerificationKey};
+    let mut rep = Report::new();
+    let mut sk_bytes = [0u8; 32];
+    sk_bytes[..8].copy_from_slice(&c.seed.to_le_bytes());
+    sk_bytes[8..16].copy_from_slice(&c.seed.wrapping_mul(0x9E3779B97F4A7C15).to_le_bytes());
+    let sk = SigningKey::from_bytes(&sk_bytes);
+    let sig = sk.sign(&c.msg);
+    let first = sig.to_bytes()[0];
+    rep.label("honest-key-roundtrip");
+    if first == 0x5b || first == 0x7b {
+        rep.label("honest-key:first-byte-looks-like-json");
+    }
+    let r = catch(|| -> Result<(), String> {
+        let key = GenesisEd25519Signature::new(sig);
+        // every encoder → the generic decoder
+        let enc: String = key.clone().try_into().map_err(|e: anyhow::Error| format!("encode: {e:#}"))?;
+        let back = GenesisEd25519Signature::try_from(enc.as_str()).map_err(|e| format!("decoding the key's own encoding failed: {e:#}"))?;
+        if back.to_bytes_hex().ok() != key.to_bytes_hex().ok() {
+            return Err("decode(encode(signature)) differs".into());
+        }
+        for enc in [key.to_bytes_hex().map_err(|e| e.to_string())?, key.to_json_hex().map_err(|e| e.to_string())?] {
+            let back = GenesisEd25519Signature::try_from(enc.as_str()).map_err(|e| format!("decoding an honest encoding failed: {e:#}"))?;
+            if back.to_bytes_hex().ok() != key.to_bytes_hex().ok() {
+                return Err("decode(encode(signature)) differs".into());
+            }
+        }
+        // through serde, as inside a certificate message
+        let js = serde_json::to_string(&key).map_err(|e| e.to_string())?;
+        let back: GenesisEd25519Signature = serde_json::from_str(&js).map_err(|e| format!("serde round trip of an honest signature failed: {e}"))?;
+        if back.to_bytes_hex().ok() != key.to_bytes_hex().ok() {
+            return Err("serde round trip differs".into());
+        }
+        let vk = GenesisEd25519VerificationKey::new(sk.verifying_key());
+        let enc: String = vk.clone().try_into().map_err(|e: anyhow::Error| format!("encode: {e:#}"))?;
+        let back = GenesisEd25519VerificationKey::try_from(enc.as_str()).map_err(|e| format!("decoding the verification key's own encoding failed: {e:#}"))?;
+        if back.to_json_hex().ok() != vk.to_json_hex().ok() {
+            return Err("decode(encode(verification key)) differs".into());
+        }
+        Ok(())
+    });
+    match r {
+        Ok(Ok(())) => {}
+        Ok(Err(e)) => {
+            rep.violation("honest-roundtrip:ed25519", format!("{e}; signing key seed {} message {} (signature starts with {first:#04x})", c.seed, hex::encode(&c.msg)));
+        }
+        Err(p) => {
+            rep.violation("honest-roundtrip:ed25519", format!("panic {p}; seed {}", c.seed));
+        }
+    }
+    rep.nontrivial(format!("hk {}", c.seed));
+    rep
+}
+
 // ------------------------------------------------------------------------------------------ libFuzzer layer
 
 #[derive(Clone, Debug, Serialize, Deserialize)]
@@ -842,7 +948,9 @@ pub fn run(args: &Args) -> i32 {
         .require_label("mutated:Str")
         .require_label("mutated:Json")
         .require_label("mut:B:CborInflate")
-        .require_label("mut:B:SetU64");
+        .require_label("mut:B:SetU64")
+        .require_label("legacy-field-pair")
+        .require_label("honest-key:first-byte-looks-like-json");
     let t = check.tier;
     check.shrink_iters(300);
     let _ = seeds();
@@ -859,6 +967,25 @@ pub fn run(args: &Args) -> i32 {
         }
     }
     check.enumerate("honest", items.into_iter(), false, case_fn);
+    // every pair of length/count/value fields of a legacy aggregate × boundary magnitudes (sums of two checked sizes)
+    if !check.is_replay() {
+        let _ = legacy_seed();
+    }
+    let nf = if check.is_replay() { 0 } else { legacy_seed().1.len() };
+    let mags: Vec<u64> = vec![1 << 57, 1 << 58, 1 << 59, 1 << 60, (1 << 61) - 1, 1 << 61, 1 << 62, 1 << 63, u64::MAX, u64::MAX / 8, u64::MAX / 32 + 1];
+    let mut pairs = vec![];
+    for a in 0..nf {
+        for b in (a + 1)..nf {
+            for (i, va) in mags.iter().enumerate() {
+                // a diagonal band of magnitude pairs keeps the enumeration at ~10k cases
+                for vb in [mags[i], mags[(i + 1) % mags.len()], mags[(i + 3) % mags.len()]] {
+                    pairs.push(FieldPair { a, b, va: *va, vb });
+                }
+            }
+        }
+    }
+    check.enumerate("legacy-field-pairs", pairs.into_iter(), true, field_pair_case);
+    check.section("honest-keys", || (any::<u64>(), prop::collection::vec(any::<u8>(), 0..40)).prop_map(|(seed, msg)| HonestKey { seed, msg }), t.pick(4000, 200_000), honest_key_case);
     check.section("mutated", strategy, t.pick(60_000, 3_000_000), case_fn);
     // regression inputs found by the fuzzers earlier (committed), replayed in-process on every run
     let mut raws = vec![];
